@@ -214,7 +214,16 @@ func (server *Server) Validate(ctx context.Context, opts ...ValidationOption) (e
 		return errors.New("server URL has mismatched { and }")
 	}
 
-	if opening != len(server.Variables) {
+	// A variable may be used more than once in the URL: compare the distinct placeholders with the declared variables.
+	names, err := server.ParameterNames()
+	if err != nil {
+		return errors.New("server URL has mismatched { and }")
+	}
+	placeholders := make(map[string]struct{}, len(names))
+	for _, name := range names {
+		placeholders[name] = struct{}{}
+	}
+	if len(placeholders) != len(server.Variables) {
 		return errors.New("server has undeclared variables")
 	}
 
